@@ -28,7 +28,7 @@ sys.exit(1 if bad else 0)
 
 def run(ctx):
     ctx.assumptions += [
-        "translator/forms.py matches the statements of the activation loops literally (fail-closed: any other shape of the loop is reported as a broken translation)",
+        "translator/forms.py reduces the activation loops, Assemble, Field.__call__/grad and Sym_Grad to canonical effect trees (single-assignment locals inlined, loop variables renamed) and requires equality with a reference body (fail-closed: any other shape is reported as a broken translation)",
         "the model semantics used by the correspondence is a numpy transcription of dlin/dform/integrate_e of C13_forms.v (not extracted code)",
         "one element at a time: all FeArray operations are elementwise in the leading (Ne, nPg) axes (property C12)",
         "Coq 8.16.1 kernel; stdlib real-number axioms as listed in trusted_base",
